@@ -27,12 +27,16 @@ def get_literal_expr(obj: object) -> Optional[str]:
     try:
         name = BUILTIN_TO_NAME[obj]
     except (KeyError, TypeError):
-        try:
-            return _get_complex_literal_expr(obj)
-        except _CannotBeRenderedError:
-            return None
+        name = None
 
-    return name
+    # dict lookup matches by equality, but only the builtin object itself can be replaced with its name
+    if name is not None and NAME_TO_BUILTIN[name] is obj:
+        return name
+
+    try:
+        return _get_complex_literal_expr(obj)
+    except _CannotBeRenderedError:
+        return None
 
 
 def _provide_lit_expr(obj: object) -> str:
